@@ -556,7 +556,13 @@ func (s *state) append(c *migrate.Change) {
 func alterable(modify *schema.ModifyTable) bool {
 	for _, change := range modify.Changes {
 		switch change := change.(type) {
-		case *schema.RenameColumn, *schema.RenameIndex, *schema.DropIndex, *schema.AddIndex:
+		case *schema.RenameColumn, *schema.RenameIndex, *schema.AddIndex:
+		case *schema.DropIndex:
+			// An index that backs a UNIQUE constraint cannot be
+			// dropped. The table should be rebuilt without it.
+			if o := (IndexOrigin{}); sqlx.Has(change.I.Attrs, &o) && o.O == "u" {
+				return false
+			}
 		case *schema.AddColumn:
 			if len(change.C.Indexes) > 0 || len(change.C.ForeignKeys) > 0 {
 				return false
